@@ -11,6 +11,7 @@
 -/
 import Ladybug.Proofs.C16Lemmas
 import Ladybug.Proofs.C16Idf
+import Ladybug.Proofs.C16Hist
 import Ladybug.Props.C09
 
 namespace DD
@@ -22,16 +23,16 @@ open Gen.DD Psychro
 /-- The regenerated `HOURLY_MULTIPLIERS` contain 1 and 0 and lie in [0, 1] (what the profile theorems need;
     a changed table entry such as 1 -> 0.99 breaks this theorem). -/
 theorem C16_multipliers :
-    (1 : ℝ) ∈ (hourlyMultipliers : List ℝ) ∧ (0 : ℝ) ∈ (hourlyMultipliers : List ℝ) ∧
-      (∀ m ∈ (hourlyMultipliers : List ℝ), 0 ≤ m ∧ m ≤ 1) ∧ (hourlyMultipliers : List ℝ).length = 24 := by
+    (1 : ℝ) ∈ (Gen.DD.hourlyMultipliers : List ℝ) ∧ (0 : ℝ) ∈ (Gen.DD.hourlyMultipliers : List ℝ) ∧
+      (∀ m ∈ (Gen.DD.hourlyMultipliers : List ℝ), 0 ≤ m ∧ m ≤ 1) ∧ (Gen.DD.hourlyMultipliers : List ℝ).length = 24 := by
   refine ⟨?_, ?_, ?_, ?_⟩
-  · simp only [hourlyMultipliers, List.mem_cons]; norm_num
-  · simp only [hourlyMultipliers, List.mem_cons]; norm_num
+  · simp only [Gen.DD.hourlyMultipliers, List.mem_cons]; norm_num
+  · simp only [Gen.DD.hourlyMultipliers, List.mem_cons]; norm_num
   · intro m hm
-    simp only [hourlyMultipliers, List.mem_cons, List.not_mem_nil, or_false] at hm
+    simp only [Gen.DD.hourlyMultipliers, List.mem_cons, List.not_mem_nil, or_false] at hm
     rcases hm with h | h | h | h | h | h | h | h | h | h | h | h | h | h | h | h | h | h | h | h | h | h | h | h <;>
       subst h <;> norm_num
-  · simp [hourlyMultipliers]
+  · simp [Gen.DD.hourlyMultipliers]
 
 /-- Both date computations start the day at `(doy - 1) * 1440` (regenerated from `hourly_datetimes` and
     `_SkyCondition._get_datetimes`; on a tree with `doy * 1440` this theorem does not check). -/
@@ -68,7 +69,7 @@ theorem C16_profile_flat (mx : ℝ) : ∀ v ∈ hourlyDryBulb mx 0, v = mx := by
   have b := hge v hv
   linarith
 
-example : hourlyDryBulb (30 : ℝ) 10 ≠ [] := by simp [hourlyDryBulb, hourlyMultipliers]
+example : hourlyDryBulb (30 : ℝ) 10 ≠ [] := by simp [hourlyDryBulb, Gen.DD.hourlyMultipliers]
 
 /-! ### humidity profile -/
 
@@ -354,6 +355,75 @@ theorem C16_ashrae_cooling (L : TokLaws τ ν) (kv : List (String × τ)) (city 
 example (ν : Type) [NumVal ν] : TokLaws (FreeTok ν) ν := freeTok_laws ν
 
 end value
+
+/-! ### one object, a history of operations (round 3)
+
+  `Obj` / `Op` / `step` / `runOps` / `construct` are the object state machine of Model/DesignDayObj.lean: the
+  state is the public state; setters, replaced condition objects and refused operations as the validation
+  code of designday.py has them.  Driver op `hist` runs the same histories on the real object step by step
+  (harness/props/c16.py, `_history_correspondence`); the oracle op `history` compares every observable of the
+  real object after every step with a design day built from scratch and with the statement itself. -/
+
+section history
+variable {ν : Type} [NumVal ν]
+
+/-- **A history refines a fresh object.**  Start from any object the constructors accept and apply ANY list
+    of operations - setters with valid and invalid arguments, new condition objects, changes of the sky
+    class, date, daylight-saving flag, location, reads in between.  The final object is again one the
+    constructors accept, and building a design day from scratch from its public state gives exactly that
+    object: every observable `obs` (any function of the object: the `to_idf` fields, the hourly profiles, the
+    hourly and sun date-times ...) of the object with the history equals that of the fresh object.  (In the
+    model this holds because there is no state besides the public state and every setter checks what the
+    constructor checks; an implementation with a stale memo or a half-applied refused operation disagrees
+    with the model in the step-by-step correspondence.) -/
+theorem C16_history_refines_fresh (o : Obj ν) (h : construct o = .ok o) (ops : List (Op ν)) :
+    construct (runOps o ops) = .ok (runOps o ops) ∧
+    ∀ {β : Type} (obs : Obj ν → β), (construct (runOps o ops)).map obs = .ok (obs (runOps o ops)) := by
+  have hc := construct_of_inv _ (runOps_inv o (inv_of_construct o o h) ops)
+  exact ⟨hc, fun obs => by rw [hc]; rfl⟩
+
+/-- **A refused operation preserves everything.**  When a step is refused (AssertionError of a setter or
+    constructor, ValueError of an impossible date, AttributeError of a sky class without that attribute) the
+    object is the object before - hence every observable is unchanged. -/
+theorem C16_refused_preserves (o : Obj ν) (op : Op ν) (e : OErr) (h : (step o op).2 = .refused e) :
+    (step o op).1 = o ∧ ∀ {β : Type} (obs : Obj ν → β), obs (step o op).1 = obs o := by
+  have := step_refused o op e h
+  exact ⟨this, fun obs => by rw [this]⟩
+
+/-- **Reads are pure.**  A read never changes the object, and deleting all reads from a history - wherever
+    they stand, however often they are repeated - leaves the final object (hence every later observation)
+    the same: the order and number of reads cannot matter. -/
+theorem C16_read_pure (o : Obj ν) (ops : List (Op ν)) :
+    step o .read = (o, .done) ∧ runOps o (ops.filter fun op => !op.isRead) = runOps o ops :=
+  ⟨rfl, runOps_drop_reads o ops⟩
+
+/-- Every accepted operation keeps what the constructors assert (range >= 0, wind direction in [0, 360],
+    a real calendar date, clearness in [0, 1.2], day type among DAY_TYPES, location inside its ranges). -/
+theorem C16_step_keeps_invariant (o : Obj ν) (hi : Inv o) (op : Op ν) : Inv (step o op).1 := by
+  have := runOps_inv o hi [op]
+  simpa [runOps] using this
+
+/-- **IDF round trip after any history.**  Whatever was done to a constructed design day before, if it ends
+    with one of the two ASHRAE sky models, no wet-bulb range and a date of the non-leap year, the fields
+    `to_idf` writes are read back by `from_idf` as that same design day (lawful tokens: `float(str(x)) == x`
+    etc.).  Combines `C16_history_refines_fresh` with `C16_idf_roundtrip_value`. -/
+theorem C16_history_idf_roundtrip {τ : Type} [Tok τ ν] (L : TokLaws τ ν) (o : Obj ν) (h : construct o = .ok o)
+    (ops : List (Op ν)) (tail : τ) (hw : (runOps o ops).dd.hum.wetBulbRange = .blank)
+    (hl : (runOps o ops).dd.sky.date.leap = false) (hs : (runOps o ops).dd.sky.kind.tag ≠ .base) :
+    fromIdfFields (writtenFields (runOps o ops).dd tail) = .ok (runOps o ops).dd :=
+  idf_roundtrip_value L _ (writable_of_inv _ (runOps_inv o (inv_of_construct o o h) ops) hw hl hs) tail
+
+end history
+
+/-- non-vacuity: a refused negative range, an attribute the sky class does not have, a daylight-saving switch -/
+example :
+    let _ : NumVal Int := ⟨0, fun x => (x : Rat)⟩
+    let o : Obj Int := ⟨⟨"d", "SummerDesignDay", ⟨30, 10, "DefaultMultipliers", ""⟩,
+      ⟨.wetbulb, 20, 101325, false, false, "", .blank⟩, ⟨2, 180⟩, ⟨⟨7, 21, false⟩, false, .tau 1 2 false⟩⟩,
+      ⟨"c", 40, -80, -6, 200⟩⟩
+    (step o (.setDbRange (.num (-6)))).2 = .refused .assert ∧ (step o (.setClearness (.num 1))).2 = .refused .attr ∧
+      (step o (.setDst true)).1.dd.sky.dst = true ∧ (step o (.setDate (some (2, 30)))).2 = .refused .value := by
+  decide +kernel
 
 /-! ### DDY file: list lift -/
 
